@@ -143,8 +143,10 @@ def hist(agg):
 def fold(results):
     agg = {'evaluations': 0, 'nontrivial_sigs': set(), 'stats': {}, 'oracle_evals': {},
            'violations': [], 'samples': [], 'timeouts': [], 'errors': [], 'coverage': {},
-           'classes': {}, 'stopped_early': 0}
+           'classes': {}, 'stopped_early': 0, 'known_counts': {}}
     for r in results:
+        for k, v in r.get('known_counts', {}).items():
+            agg['known_counts'][k] = agg['known_counts'].get(k, 0) + v
         agg['evaluations'] += r['evaluations']
         agg['nontrivial_sigs'].update(r['nontrivial_sigs'])
         for k, v in r['stats'].items():
@@ -175,8 +177,8 @@ def judge(cid, mod, agg, infra, known, plan):
             new.append(v)
     for slug, vs in sorted(seen_known.items()):
         lines.append('KNOWN-FINDING: property=%s mechanism=%s %s (matched %d cases this run)' % (
-            cid, slug, known[(cid, slug)], len(vs)))
-    agg['known_matched'] = {k: len(v) for k, v in seen_known.items()}
+            cid, slug, known[(cid, slug)], agg.get('known_counts', {}).get(slug, len(vs))))
+    agg['known_matched'] = {k: agg.get('known_counts', {}).get(k, len(v)) for k, v in seen_known.items()}
     if new:
         rdir = os.path.join(HOME, 'replays', cid)
         os.makedirs(rdir, exist_ok=True)
